@@ -5,6 +5,9 @@
 
 #include <gmlc/concurrency/Latch.hpp>
 
+#include <chrono>
+#include <thread>
+
 enum { OP_ARRIVE = 0, OP_WAIT, OP_ARRIVE_AND_WAIT, OP_LATE_WAIT };
 static const char* const OPN[] = {"arrive", "wait", "arrive_and_wait", "late_wait"};
 
@@ -48,6 +51,10 @@ void body(int t)
     for (int i = 0; i < n; i++) {
         gsim::Op op = gsim::prog_op(t, i);
         for (int y = 0; y < op.a; y++) gsim::yield();
+        // a slow thread: long (in simulated time) after the others began to wait
+        if (op.b == 1) std::this_thread::sleep_for(std::chrono::milliseconds(100));
+        else if (op.b == 2) std::this_thread::sleep_for(std::chrono::seconds(3));
+        else if (op.b == 3) std::this_thread::sleep_for(std::chrono::hours(2));
         switch (op.code) {
             case OP_ARRIVE:
                 S->datum[t] = 1000 + t;
@@ -103,7 +110,8 @@ void run()
                 int y = gsim::gen_int(3) == 0 ? 1 + gsim::gen_int(2) : 0;
                 if (role <= 1) {
                     int k = 1 + gsim::gen_int(3);
-                    for (int i = 0; i < k; i++) gsim::prog_add(t, {OP_ARRIVE, y, 0, 0});
+                    for (int i = 0; i < k; i++)
+                        gsim::prog_add(t, {OP_ARRIVE, y, gsim::gen_int(6) == 0 ? 1 + gsim::gen_int(3) : 0, 0});
                     free_arrivals += k;
                     if (gsim::gen_int(3) == 0) gsim::prog_add(t, {OP_WAIT, 0, 0, 0});
                 } else if (role == 2) {
@@ -143,6 +151,8 @@ void run()
                    free_arrivals, st.count);
     gsim::enable_fault(gsim::F_SPURIOUS_WAKE, gsim::knob("spurious", 0, 2) * 150);
     gsim::enable_fault(gsim::F_STALE_READ, gsim::knob("stale", 0, 1) * 200);
+    // (the unchanged Latch has no timed wait: this matters only for rewrites that introduce one)
+    gsim::enable_fault(gsim::F_TIME_JUMP, gsim::knob("time_jump", 0, 2) * 30);
     st.latch = new gmlc::concurrency::Latch(st.count);
     wl::run_program(body);
     delete st.latch;
